@@ -70,6 +70,170 @@ func guardsExactly(b *ssa.BasicBlock, region map[*ssa.BasicBlock]bool, want ...s
 	return true, ""
 }
 
+// checkAllConst: C09.allconst for the Binary and Less cases.
+func checkAllConst(c *Ctx, cf *ssa.Function, ts *TypeSwitch, model map[string]*NodeModel, group map[*ssa.Function]bool) {
+	for _, name := range []string{"Binary", "Less"} {
+		body := ts.CaseBody(name)
+		if body == nil {
+			c.Fail("C09.allconst", ShortName(cf)+"/case "+name, c.Prog.FuncPos(cf), "constFold has no case for "+name)
+			continue
+		}
+		e := body.E
+		grp := map[*ssa.Function]bool{}
+		for k, v := range group {
+			grp[k] = v
+		}
+		grp[Origin(body.Fn)] = true
+		oc := &OriginCtx{E: e, Model: model[name], Group: grp}
+		if !body.Extracted {
+			oc.X = ts.X
+		}
+		evalName := map[string]string{"Binary": "binaryEval", "Less": "lessEval"}[name]
+		enter := func(g *ssa.Function) bool {
+			if g == nil || g.Blocks == nil || PkgPathOf(g) != PkgPathOf(cf) || grp[Origin(g)] {
+				return false
+			}
+			switch g.Name() {
+			case "binaryEval", "lessEval", "SetWidth", "setWidth":
+				return false
+			}
+			return true
+		}
+		for mask := 0; mask < 16; mask++ {
+			k1, k2, chg, lt := mask&1 != 0, mask&2 != 0, mask&4 != 0, mask&8 != 0
+			if name == "Binary" && lt {
+				continue
+			}
+			var evalCalls, ctorCalls []*ssa.Call
+			var evalArgs [][]ssa.Value
+			var vl *Valuation
+			operand := func(ta *ssa.TypeAssert) string {
+				o := oc.Origins(vl.Root(ta.X))
+				if len(o) != 1 {
+					return ""
+				}
+				for k, info := range o {
+					if info.Transformed {
+						return k
+					}
+				}
+				return ""
+			}
+			vl = &Valuation{
+				Enter: enter,
+				Bool: func(v ssa.Value) (bool, bool) {
+					switch x := v.(type) {
+					case *ssa.Extract:
+						if ta, ok := x.Tuple.(*ssa.TypeAssert); ok && x.Index == 1 && TypeNameIs(ta.AssertedType, "pkg/expr.Const") {
+							switch operand(ta) {
+							case "Arg1":
+								return k1, true
+							case "Arg2":
+								return k2, true
+							}
+						}
+						if call, ok := x.Tuple.(*ssa.Call); ok && x.Index == 1 && grp[Origin(call.Call.StaticCallee())] {
+							return chg, true
+						}
+					case *ssa.Call:
+						if FuncNameIs(x.Call.StaticCallee(), pkgXform+".lessEval") {
+							return lt, true
+						}
+					}
+					return false, false
+				},
+			}
+			vl.Visit = func(in ssa.Instruction) {
+				call, ok := in.(*ssa.Call)
+				if !ok {
+					return
+				}
+				f := call.Call.StaticCallee()
+				switch {
+				case FuncNameIs(f, pkgXform+"."+evalName):
+					evalCalls = append(evalCalls, call)
+					var as []ssa.Value
+					for _, a := range call.Call.Args {
+						as = append(as, vl.Root(a))
+					}
+					evalArgs = append(evalArgs, as)
+				case f != nil && PkgPathOf(f) == ExprPkg && strings.HasPrefix(f.Name(), "New"):
+					ctorCalls = append(ctorCalls, call)
+				}
+			}
+			res := vl.Walk(body.Entry, nil)
+			key := fmt.Sprintf("%s/case %s/%s(arg1 const=%v, arg2 const=%v, changed=%v", ShortName(cf), name, evalName, k1, k2, chg)
+			if name == "Less" {
+				key += fmt.Sprintf(", less=%v", lt)
+			}
+			key += ")"
+			pos := c.Prog.Pos(body.Entry.Instrs[0].Pos())
+			if !res.OK {
+				c.Fail("C09.allconst", key, pos, "the case cannot be followed: "+res.Why)
+				continue
+			}
+			ret, isRet := res.End.(*ssa.Return)
+			if !isRet {
+				c.Fail("C09.allconst", key, pos, "the case panics")
+				continue
+			}
+			_ = ret
+			why := ""
+			constOperand := func(v ssa.Value, acc string) bool {
+				ex, ok := Unwrap(v).(*ssa.Extract)
+				if !ok || ex.Index != 0 {
+					return false
+				}
+				ta, ok := ex.Tuple.(*ssa.TypeAssert)
+				return ok && TypeNameIs(ta.AssertedType, "pkg/expr.Const") && operand(ta) == acc
+			}
+			switch {
+			case !(k1 && k2):
+				if len(evalCalls) > 0 {
+					why = "the operation is evaluated although an operand is not a constant"
+				}
+			case len(evalCalls) != 1:
+				why = fmt.Sprintf("with both operands constant the operation is evaluated %d times (an all-constant operation can remain unfolded)", len(evalCalls))
+			case len(ctorCalls) > 0:
+				why = "with both operands constant the node is rebuilt instead of folded"
+			case name == "Binary":
+				a := evalArgs[0]
+				switch {
+				case !accessorCallOn(a[0], e, "Op") || !accessorCallOn(a[3], e, "Width"):
+					why = "binaryEval is not given the node's own Op() and Width()"
+				case !constOperand(a[1], "Arg1") || !constOperand(a[2], "Arg2"):
+					why = "binaryEval operands are not (folded Arg1).(Const), (folded Arg2).(Const) in this order"
+				case Unwrap(res.RetVal[0]) != ssa.Value(evalCalls[0]):
+					why = "the evaluated constant is not what the case returns"
+				}
+			case name == "Less":
+				a := evalArgs[0]
+				switch {
+				case !constOperand(a[0], "Arg1") || !constOperand(a[1], "Arg2") || !accessorCallOn(a[2], e, "Width"):
+					why = "lessEval is not given (folded Arg1).(Const), (folded Arg2).(Const), e.Width() in this order"
+				default:
+					sw, ok := Unwrap(res.RetVal[0]).(*ssa.Call)
+					if !ok || !FuncNameIs(sw.Call.StaticCallee(), fnSetWidth) {
+						why = "the selected branch is not returned through SetWidth(·, e.Width())"
+					} else if !accessorCallOn(vl.Root(sw.Call.Args[1]), e, "Width") {
+						why = "the selected branch is not re-widthed to e.Width()"
+					} else {
+						o := oc.Origins(vl.Root(sw.Call.Args[0]))
+						want := "ExprFalse"
+						if lt {
+							want = "ExprTrue"
+						}
+						if info, has := o[want]; !has || len(o) != 1 || !info.Transformed {
+							why = fmt.Sprintf("when the comparison is %v the result derives from %s, expected the folded %s", lt, OriginNames(o), want)
+						}
+					}
+				}
+			}
+			c.Oblige("C09.allconst", key, pos, why == "", why)
+		}
+	}
+}
+
 func checkC09(c *Ctx) {
 	c.Rule("C09.exh", "constFold's type switch has a case for every expr.Expr implementer")
 	c.Rule("C09.rebuild", "constFold rebuilds Binary, Less and MemLoad homomorphically from all folded children with the node's own operator/key/width")
@@ -94,173 +258,66 @@ func checkC09(c *Ctx) {
 	model := c.Prog.ExprModel()
 	group := c.Prog.RecursionGroup(cf)
 
-	// --- Binary all-constant
-	if e := ts.CaseValue("Binary"); e != nil {
-		cb := ts.CaseBlock("Binary")
-		region := RegionOf(cb)
-		oc := &OriginCtx{E: e, X: ts.X, Model: model["Binary"], Group: group}
-		found := 0
-		for _, b := range cf.Blocks {
-			if !region[b] {
-				continue
-			}
-			for _, in := range b.Instrs {
-				call, ok := in.(*ssa.Call)
-				if !ok || !FuncNameIs(call.Call.StaticCallee(), pkgXform+".binaryEval") {
-					continue
-				}
-				found++
-				key := ShortName(cf) + "/case Binary/binaryEval"
-				a := call.Call.Args
-				ok1v, g1 := constAssertOf(oc, a[1], "Arg1")
-				ok2v, g2 := constAssertOf(oc, a[2], "Arg2")
-				switch {
-				case !accessorCallOn(a[0], e, "Op") || !accessorCallOn(a[3], e, "Width"):
-					c.Fail("C09.allconst", key, c.Prog.Pos(call.Pos()), "binaryEval is not given the node's own Op() and Width()")
-				case !g1 || !g2:
-					c.Fail("C09.allconst", key, c.Prog.Pos(call.Pos()), "binaryEval operands are not (folded Arg1).(Const), (folded Arg2).(Const) in this order")
-				default:
-					if ok, why := guardsExactly(b, region, ok1v, ok2v); !ok {
-						c.Fail("C09.allconst", key, c.Prog.Pos(call.Pos()), why)
-					} else if ret, isRet := b.Instrs[len(b.Instrs)-1].(*ssa.Return); !isRet || Unwrap(ret.Results[0]) != ssa.Value(call) {
-						c.Fail("C09.allconst", key, c.Prog.Pos(call.Pos()), "the evaluated constant is not what the case returns")
-					} else {
-						c.Pass("C09.allconst", key, c.Prog.Pos(call.Pos()), "")
-					}
-				}
-			}
-		}
-		c.RequireCount("C09.allconst binaryEval in case Binary", found, 1)
-	}
-	// --- Less all-constant
-	if e := ts.CaseValue("Less"); e != nil {
-		cb := ts.CaseBlock("Less")
-		region := RegionOf(cb)
-		oc := &OriginCtx{E: e, X: ts.X, Model: model["Less"], Group: group}
-		found := 0
-		for _, b := range cf.Blocks {
-			if !region[b] {
-				continue
-			}
-			for _, in := range b.Instrs {
-				call, ok := in.(*ssa.Call)
-				if !ok || !FuncNameIs(call.Call.StaticCallee(), pkgXform+".lessEval") {
-					continue
-				}
-				found++
-				key := ShortName(cf) + "/case Less/lessEval"
-				a := call.Call.Args
-				ok1v, g1 := constAssertOf(oc, a[0], "Arg1")
-				ok2v, g2 := constAssertOf(oc, a[1], "Arg2")
-				if !g1 || !g2 || !accessorCallOn(a[2], e, "Width") {
-					c.Fail("C09.allconst", key, c.Prog.Pos(call.Pos()), "lessEval is not given (folded Arg1).(Const), (folded Arg2).(Const), e.Width() in this order")
-					continue
-				}
-				if ok, why := guardsExactly(b, region, ok1v, ok2v); !ok {
-					c.Fail("C09.allconst", key, c.Prog.Pos(call.Pos()), why)
-					continue
-				}
-				// branch on the result
-				iff, isIf := b.Instrs[len(b.Instrs)-1].(*ssa.If)
-				if !isIf || iff.Cond != ssa.Value(call) {
-					c.Fail("C09.allconst", key, c.Prog.Pos(call.Pos()), "the comparison result does not select the branch")
-					continue
-				}
-				bad := ""
-				nRet := 0
-				for _, rb := range cf.Blocks {
-					if !region[rb] || !b.Dominates(rb) || rb == b {
-						continue
-					}
-					ret, isRet := rb.Instrs[len(rb.Instrs)-1].(*ssa.Return)
-					if !isRet {
-						continue
-					}
-					nRet++
-					var res ssa.Value
-					if bd, ok := Match(ret.Results[0], CallTo(fnSetWidth, Capture("res", Any()), Any())); ok {
-						res = bd.M["res"]
-						sw := Unwrap(ret.Results[0]).(*ssa.Call)
-						if !accessorCallOn(sw.Call.Args[1], e, "Width") {
-							bad = "the selected branch is not re-widthed to e.Width()"
-						}
-					} else {
-						bad = "the selected branch is not returned through SetWidth(·, e.Width())"
-						continue
-					}
-					// per incoming edge: true side -> ExprTrue, false side -> ExprFalse
-					check := func(v ssa.Value, side bool) {
-						o := oc.Origins(v)
-						want := "ExprFalse"
-						if side {
-							want = "ExprTrue"
-						}
-						if info, has := o[want]; !has || len(o) != 1 || !info.Transformed {
-							bad = fmt.Sprintf("when the comparison is %v the result derives from %s, expected the folded %s", side, OriginNames(o), want)
-						}
-					}
-					if ph, isPhi := res.(*ssa.Phi); isPhi {
-						for i, pred := range ph.Block().Preds {
-							switch {
-							case EdgeDominates(b, 0, pred) || pred == b.Succs[0]:
-								check(ph.Edges[i], true)
-							case EdgeDominates(b, 1, pred) || pred == b.Succs[1]:
-								check(ph.Edges[i], false)
-							default:
-								bad = "cannot attribute a result to an outcome of the comparison"
-							}
-						}
-					} else {
-						switch {
-						case EdgeDominates(b, 0, rb):
-							check(res, true)
-						case EdgeDominates(b, 1, rb):
-							check(res, false)
-						default:
-							bad = "the returned branch does not depend on the comparison"
-						}
-					}
-				}
-				if nRet == 0 {
-					bad = "no result is returned after the comparison"
-				}
-				c.Oblige("C09.allconst", key, c.Prog.Pos(call.Pos()), bad == "", bad)
-			}
-		}
-		c.RequireCount("C09.allconst lessEval in case Less", found, 1)
-	}
-	// --- width of every returned value
+	// --- all-constant evaluation, walked concretely (E7) through the case body
+	// (and any helper it uses) for every combination of "folded operand is a
+	// constant" and both outcomes of the comparison
+	checkAllConst(c, cf, ts, model, group)
+	// --- width of every returned value (of constFold and of the helpers its
+	// cases were extracted into)
 	nRet := 0
-	for _, b := range cf.Blocks {
-		ret, ok := b.Instrs[len(b.Instrs)-1].(*ssa.Return)
-		if !ok {
-			continue
-		}
-		nRet++
-		key := fmt.Sprintf("%s/return#%d", ShortName(cf), nRet)
-		v := Unwrap(ret.Results[0])
-		okw := false
-		switch x := v.(type) {
-		case *ssa.Parameter:
-			okw = x == cf.Params[0]
-		case *ssa.Call:
-			f := x.Call.StaticCallee()
-			var wArg ssa.Value
-			switch {
-			case f != nil && PkgPathOf(f) == ExprPkg && strings.HasPrefix(f.Name(), "New"):
-				okw = true // width pairing decided by C09.rebuild
-			case FuncNameIs(f, pkgXform+".binaryEval"):
-				wArg = x.Call.Args[3]
-			case FuncNameIs(f, fnSetWidth):
-				wArg = x.Call.Args[1]
+	bodies := map[*ssa.Function]ssa.Value{cf: cf.Params[0]}
+	fnOrder := []*ssa.Function{cf}
+	for name := range ts.Cases {
+		if body := ts.CaseBody(name); body != nil && body.Extracted {
+			if _, dup := bodies[body.Fn]; !dup {
+				bodies[body.Fn] = body.E
+				fnOrder = append(fnOrder, body.Fn)
 			}
-			if wArg != nil {
-				if call, isCall := Unwrap(wArg).(*ssa.Call); isCall && call.Call.StaticCallee() != nil && call.Call.StaticCallee().Name() == "Width" {
-					okw = true
+		}
+	}
+	sort.Slice(fnOrder[1:], func(i, j int) bool { return fnOrder[1+i].Name() < fnOrder[1+j].Name() })
+	for _, fn := range fnOrder {
+		self := bodies[fn]
+		for _, b := range fn.Blocks {
+			ret, ok := b.Instrs[len(b.Instrs)-1].(*ssa.Return)
+			if !ok {
+				continue
+			}
+			v := Unwrap(ret.Results[0])
+			if ex, isEx := v.(*ssa.Extract); isEx {
+				v = ex.Tuple
+			}
+			if call, isCall := v.(*ssa.Call); isCall {
+				if _, isBody := bodies[call.Call.StaticCallee()]; isBody && call.Call.StaticCallee() != cf {
+					continue // the helper's own returns are judged
 				}
 			}
+			nRet++
+			key := fmt.Sprintf("%s/return#%d", ShortName(cf), nRet)
+			v = Unwrap(ret.Results[0])
+			okw := false
+			switch x := v.(type) {
+			case *ssa.Parameter:
+				okw = ssa.Value(x) == self
+			case *ssa.Call:
+				f := x.Call.StaticCallee()
+				var wArg ssa.Value
+				switch {
+				case f != nil && PkgPathOf(f) == ExprPkg && strings.HasPrefix(f.Name(), "New"):
+					okw = true // width pairing decided by C09.rebuild
+				case FuncNameIs(f, pkgXform+".binaryEval"):
+					wArg = x.Call.Args[3]
+				case FuncNameIs(f, fnSetWidth):
+					wArg = x.Call.Args[1]
+				}
+				if wArg != nil {
+					if call, isCall := Unwrap(wArg).(*ssa.Call); isCall && call.Call.StaticCallee() != nil && call.Call.StaticCallee().Name() == "Width" {
+						okw = true
+					}
+				}
+			}
+			c.Oblige("C09.width", key, c.Prog.Pos(ret.Pos()), okw, "constFold returns a value whose width is not tied to e.Width()")
 		}
-		c.Oblige("C09.width", key, c.Prog.Pos(ret.Pos()), okw, "constFold returns a value whose width is not tied to e.Width()")
 	}
 	c.RequireCount("C09.width returns", nRet, 8)
 
